@@ -27,3 +27,4 @@ def rules(ctx):
     S.c06_r3_durable_drains(ctx)
     S.c06_r4_rebuild(ctx)
     S.c06_r2_handover(ctx)
+    S.refcount_rules(ctx)
